@@ -350,7 +350,12 @@ func (ec *evalCtx) eqVals(a, b Val) string {
 
 func (ec *evalCtx) isNil(v Val) string {
 	switch v.K {
-	case KRef, KPtr, KInt:
+	case KPtr:
+		if v.T == "" { // address of a field/element of an object: never nil
+			return "false"
+		}
+		return sEq(v.T, "0")
+	case KRef, KInt:
 		return sEq(v.T, "0")
 	case KIface:
 		return sEq("(i-tag "+v.T+")", "0")
@@ -443,7 +448,23 @@ func (ec *evalCtx) eval(e Expr) Val {
 	panic(vcErrorf("cannot evaluate %s", exprString(e)))
 }
 
+// coerceNil turns the untyped nil literal into the zero value of like's kind.
+func coerceNil(v, like Val) Val {
+	if v.K == KRef && v.Typ == nil && v.T == "0" {
+		switch like.K {
+		case KIface:
+			return Val{K: KIface, T: "(mk-iface 0 0)", Typ: like.Typ}
+		case KSlice:
+			return Val{K: KSlice, T: "(mk-slice 0 0 0 0)", Typ: like.Typ}
+		case KRef, KPtr:
+			return Val{K: like.K, T: "0", Typ: like.Typ}
+		}
+	}
+	return v
+}
+
 func (ec *evalCtx) iteVal(c string, a, b Val) Val {
+	a, b = coerceNil(a, b), coerceNil(b, a)
 	if a.K == KStruct {
 		v := Val{K: KStruct, Typ: a.Typ}
 		for i := range a.Fields {
